@@ -21,7 +21,7 @@ _TOKEN_RE = re.compile(r"""
     (?P<comment>\#[^\n]*) |
     (?P<string>(?:[rRbBuUfF]{0,2})(?:'''(?:\\.|[^\\])*?'''|\"\"\"(?:\\.|[^\\])*?\"\"\"|'(?:\\.|[^'\\\n])*'|"(?:\\.|[^"\\\n])*")) |
     (?P<number>""" + _NUMBER + r""") |
-    (?P<name>[A-Za-z_][A-Za-z_0-9]*) |
+    (?P<name>[^\W\d]\w*) |
     (?P<op>\*\*=?|//=?|<<=?|>>=?|<=|>=|==|!=|->|:=|\+=|-=|\*=|/=|%=|&=|\|=|\^=|@=|[-+*/%&|^~<>()\[\]{},:.;@=!])
 """, re.VERBOSE)
 
